@@ -214,10 +214,13 @@ def coq_property_gate(pid, dirs):
             cur = []
             blocks.append(cur)
         elif cur is not None:
-            m = re.match(r"^([A-Za-z_][A-Za-z0-9_'.]*)\s*:", line)
-            if m:
+            # an axiom is printed as `name : type` or, when the type is long, `name` alone followed by indented lines
+            m = re.match(r"^([A-Za-z_][A-Za-z0-9_'.]*)\s*(:|$)", line)
+            if line.startswith((" ", "\t")) or not line.strip():
+                continue
+            if m and not line.startswith(("COQC", "COQDEP", "make")):
                 cur.append(m.group(1))
-            elif not line.startswith(" ") and line.strip():
+            else:
                 cur = None
     axioms = sorted({a for b in blocks for a in b})
     for a in axioms:
